@@ -20,3 +20,12 @@ seq_check('C39', 'c39_oncefunction',
           'bounded-exhaustive enumeration of callable size x alignment x move/call histories for OnceFunction with per-instance lifetime counters',
           '13 callable sizes x 7 alignments (51 distinct types across the inline/spill boundary and every small-buffer class) x 7 histories (call; cleanupNotRun; move,call; move,move,cleanupNotRun; move-assign then call/cleanup; construct from lvalue) x 4 block-recycling schedules x 300 repetitions (x10 rounds thorough). Oracle: invoked exactly when called and at most once, destroyed exactly once, `this` aligned at construction/invocation/destruction, obligations follow the move.',
           'single-threaded; UBSan alignment check is disabled around the callable type so that misalignment is reported by the oracle with a replay instead of an abort')
+
+seq_check('C38', 'c38_smallvector',
+          'bounded-exhaustive enumeration of SmallVector operation histories on two vectors against std::vector, with lifetime tracking, address-alignment checks and a minimum-alignment operator new',
+          'All histories of <=4 (quick) / <=5 (thorough) operations on two SmallVector<T,N> a,b, merged by canonical state (contents, inline/heap, capacity), over pushes, emplace_back, pop_back, clear, resize(n), resize(n,v), reserve, erase, copy/move/self assignment, all constructors, and self-aliasing arguments (x.push_back(x.front()), x.resize(n, x.front())), for N in {1,2,4} x T in {int, Tracked<int>, alignas(64) tracked}; plus a heap-address probe over every reserve size up to 64 with 0..7 other live vectors under an operator new that returns blocks aligned to exactly 16. Oracle: accessors and return values equal std::vector, every element address is a multiple of alignof(T), live registry equals the elements, balanced after destruction, every heap block released once.',
+          'single-threaded; operator new is replaced inside SmallVector operations so that the alignment verdict does not depend on what the allocator happens to return')
+seq_check('C43', 'c43_cpuset',
+          'bounded-exhaustive enumeration of CpuSet operation sequences against std::set, of all short strings through the CPU-list parser against a reference grammar, and of all small cache topologies through the grouping function',
+          'Set algebra: BFS over all sequences (depth 4 quick, closed state space at depth 6 thorough) of add/remove over 9 ids and addRange/removeRange over all 81 id pairs incl. negative and huge ids, contains/count compared with std::set restricted to the representable range after every step. Parser: every string of length <=6 (7 thorough) over {0,1,9,comma,dash,space,newline,x} plus all lists of <=3 items with bounds from the id set; well-formed lists must yield exactly the in-range ids they denote, everything else must stay in range and UB-free. Grouping: every topology of <=6 (7) CPUs (all set partitions into L2 groups x all assignments to <=3 L3 groups or unknown, dense and sparse ids) x maxGroupSize 1..7 (8); the four clauses of the statement checked on the output.',
+          'single-threaded; functions reached through the exported entry points with injected inputs (no sysfs reads in the enumerated part)')
